@@ -117,6 +117,10 @@ func genGuards() {
 			Params: []string{"i", "bitmapLen", "presence:Bool", "isSet:Bool", "found:Bool"},
 			Map: ids(map[string]string{"m.bitmap().Len()": "bitmapLen", "m.bitmap().IsBitmapPresenceBit(i)": "presence",
 				"m.bitmap().IsSet(i)": "isSet", "ok": "found"}, "i")},
+		{Name: "message_pack", File: "message.go", Recv: "Message", Func: "pack",
+			Params: []string{"id", "presence:Bool", "isSet:Bool", "found:Bool"},
+			Map: map[string]string{"id": "id", "i": "id", "m.bitmap().IsBitmapPresenceBit(id)": "presence",
+				"m.bitmap().IsBitmapPresenceBit(i)": "presence", "m.bitmap().IsSet(id)": "isSet", "ok": "found"}},
 	}
 	genGuardFile("GuardsBitmap.lean", bitmap)
 }
